@@ -54,7 +54,7 @@ def shard_pm2(seed, n):
             cmds = [('B', (k * 61 + (k >> 8)) & 0xff) for k in range(8300)] + [('C', d, 3 + (d % 4)) for d in range(1, 8193)]
         exp = pmarc.expand_pm(cmds)
         stream, marks = pmarc.pm2_serialise(cmds, rnd, feat)
-        c = dech.Case('-pm2-', stream, len(exp), sched=[rnd.choice([1, 100, 256, 5000])] if rnd.random() < 0.3 else [],
+        c = dech.Case('-pm2-', stream, len(exp), sched=[rnd.choice([1, 100, 256, 5000])] if rnd.random() < 0.3 else [], in_chunk=rnd.choice([0, 0, 1, 3, 7]),
                       meta={'tag': 'mtf-directed' if directed else 'every-distance' if i == 4 else 'random', 'features': sorted(feat)})
         cases.append(c)
         expect.append(exp)
@@ -89,7 +89,11 @@ def shard_pm1(seed, n, trees):
                 if len(s2) < len(stream):
                     feat.add('zero-tail-cut')
                     stream = s2
-            cases.append(dech.Case('-pm1-', stream, len(exp), meta={'tag': 'tree%d' % tree, 'features': sorted(feat)}))
+            # the source of compressed bytes may hand them over in pieces of 1, 2, 3 or 7 bytes (a short read is not the end)
+            chunk = rnd.choice([0, 0, 1, 2, 3, 7])
+            if chunk:
+                feat.add('input-in-pieces')
+            cases.append(dech.Case('-pm1-', stream, len(exp), in_chunk=chunk, meta={'tag': 'tree%d' % tree, 'features': sorted(feat)}))
             expect.append(exp)
             sh.evaluated(stream, nontrivial=any(f.startswith('range') for f in feat))
             for f in feat:
